@@ -22,6 +22,7 @@ type Aux struct {
 	methods       map[string]*slip.Method
 	defaultKey    string
 	defaultCaller slip.Caller
+	classGen      int64 // slip.ClassGeneration() when the cache was last known to be current
 	moo           sync.Mutex
 }
 
@@ -63,6 +64,14 @@ func (aux *Aux) Call(gf slip.Object, s *slip.Scope, args slip.List, depth int) s
 	}
 	// Any further argument checking gets tricky as optinal could be keywords
 	// depending on then method's forms.
+	if gen := slip.ClassGeneration(); gen != aux.classGen {
+		// A class was defined or redefined, cached effective methods may
+		// rest on a precedence list that has changed.
+		if 0 < len(aux.cache) {
+			aux.cache = map[string]*slip.Method{}
+		}
+		aux.classGen = gen
+	}
 	key := buildSpecKey(args[:aux.reqCnt])
 	meth := aux.cache[key]
 	if meth == nil {
